@@ -225,6 +225,20 @@ def static_never_grows(prog, res):
     g = prog.fn("ZSTD_CCtx_loadDictionary_advanced")
     al = g.call_roots(("ZSTD_customMalloc", "ZSTD_createCDict_advanced", "ZSTD_createCDict_advanced2"))
     guards.require(g, res, R, "ZSTD_CCtx_loadDictionary_advanced", Want("memory_allocation", "nonzero", {"f:staticSize"}), al)
+    # by reference the dictionary is still digested into a heap CDict at the first frame (ZSTD_initLocalDict): a static context
+    # may not even record one - every write of localDict.dict in the loader is behind the static test
+    recs = g.find_roots(lambda x: x.get("k") == "asg" and strip_casts(x["lhs"]).get("f") == "dict" and any(y.get("f") == "localDict" for y in walk(x["lhs"])))
+    tested = [(bid, s_) for bid, cond, t, fl in g.branches() if any(y.get("k") == "mem" and y.get("f") == "staticSize" for y in g.walk_resolved(g.resolve_x(cond))) for s_ in (t, fl)]
+    res.check(len(recs) >= 2 and bool(tested) and all(g.must_pass(via_edges=tested, targets=[r_]) for r_ in recs), R,
+              "ZSTD_CCtx_loadDictionary_advanced:by-reference-too", g.loc, "every recording of a dictionary (by copy and by reference) lies behind a test of staticSize",
+              "a static CCtx can record a dictionary by reference without staticSize ever being tested: ZSTD_initLocalDict then allocates its CDict on the heap at the first frame")
+    # multithreading on a static context: both parameter setters refuse it
+    for sname in ("ZSTD_CCtx_setParameter", "ZSTD_CCtx_setParametersUsingCCtxParams"):
+        sf = prog.fn(sname)
+        gs_ = [x for x in guards.guard_sites(sf) if "parameter_unsupported" in x.codes and "f:staticSize" in (x.L | x.R)]
+        byedge = guards.truthy_edges(sf, lambda c: c.get("k") == "mem" and c.get("f") == "staticSize", truth=True)
+        res.check(bool(gs_) or bool(byedge), R, sname + ":nbWorkers-needs-heap", sf.loc, "refuses worker threads on a static context",
+                  "%s accepts nbWorkers on a static CCtx: the next frame creates a multithreading context and threads on the heap that can never be released" % sname)
     # the decoder side: every function of zstd_decompress.c that can reach an allocator through the context's customMem is cut off
     # for static contexts (a static DCtx has no allocator at all: customMem is never written by ZSTD_initStaticDCtx)
     gd = prog.fn("ZSTD_DCtx_loadDictionary_advanced")
@@ -290,7 +304,7 @@ def static_never_grows(prog, res):
         gs = guards.guard_sites(f3)
         ok = any("memory_allocation" in g2.codes for g2 in gs) or any("f:staticSize" in f3.anchors(f3.resolve_x(c)) for _, c, _, _ in f3.branches()) or name == "ZSTD_freeCDict"
         res.check(ok, R, name + ":refuses-static", f3.loc, "static objects are not freed", "free of a static object no longer refused")
-    res.need(R, 15)
+    res.need(R, 18)
 
 
 def bump_allocator(prog, res):
@@ -425,6 +439,31 @@ def resolved_against_final_cparams(prog, res):
     res.need(R, 12)
 
 
+def decoder_buffer_sizes_are_what_is_held(prog, res):
+    """T3: ZSTD_sizeof_DCtx reports inBuffSize + outBuffSize, and the oversize heuristic exists to give memory back.  Once the
+    streaming decoder has decided to resize (too small, or too large for too long) a heap context must release the old block
+    and allocate the new one before it records the new sizes: every path from the resize decision to the write of the new
+    inBuffSize passes the allocation (static contexts: the capacity test instead).  Skipping the allocation because `the old
+    block is big enough` keeps the big block while the recorded sizes shrink."""
+    R = "T3.decoder-buffer-sizes"
+    f = prog.fn("ZSTD_decompressStream")
+    writes = [(b, i) for b, i, x in f.events(lambda y: y.get("k") == "asg" and y.get("op") == "=") if strip_casts(x["lhs"]).get("f") == "inBuffSize" and const_val(x["rhs"]) is None]
+    alloc_ = f.call_roots("ZSTD_customMalloc")
+    static_e = guards.truthy_edges(f, lambda c: c.get("k") == "mem" and c.get("f") == "staticSize", truth=True)
+    decide = [(bid, t) for bid, cond, t, fl in f.branches()
+              if any(is_call(y, "ZSTD_DCtx_isOversizedTooLong") for y in f.walk_deep(f.resolve_x(cond)))
+              or {"inBuffSize", "outBuffSize"} & {y.get("f") for y in f.walk_deep(f.resolve_x(cond)) if y.get("k") == "mem"} and
+              any(y.get("k") == "bin" and y.get("op") == "<" for y in f.walk_deep(f.resolve_x(cond)))]
+    res.check(bool(writes) and bool(alloc_) and bool(decide), R, "shape", f.loc, "resize decision, allocation and size update found",
+              "decoder buffer resize changed shape: size writes %d, allocations %d, decisions %d" % (len(writes), len(alloc_), len(decide)))
+    if writes and alloc_ and decide:
+        ok = f.must_pass(via_roots=alloc_, via_edges=static_e, starts=[(e[1], 0) for e in decide], targets=writes)
+        res.check(ok, R, "resize-reallocates", f.loc, "after a resize decision the new sizes are recorded only past the allocation (heap) or the capacity test (static)",
+                  "ZSTD_decompressStream can record new (smaller) buffer sizes after a resize decision without re-allocating: the large block stays held, "
+                  "ZSTD_sizeof_DCtx under-reports it and a lowered window limit no longer bounds the context's memory")
+    res.need(R, 2)
+
+
 def run(tier):
     res = Result("C14", tier)
     tus, info = extract(["compress", "decompress", "common"])
@@ -437,6 +476,7 @@ def run(tier):
     buffer_mode_pairing(prog, res)
     static_never_grows(prog, res)
     bump_allocator(prog, res)
+    decoder_buffer_sizes_are_what_is_held(prog, res)
     decoder_window_cap(prog, res)
     sizeof_completeness(prog, res)
     return res.finish(
